@@ -20,6 +20,7 @@ type c03Use struct {
 	Route   string   `json:"route"`
 	Control bool     `json:"control_route,omitempty"` // the target only appears in a comment / verbatim / string literal
 	Wraps   []string `json:"nested_in,omitempty"`     // extra block-tag bodies the use is nested in (innermost first)
+	Operand string   `json:"operand,omitempty"`       // what the filter is applied to (default: the variable s1)
 }
 
 type c03Op struct {
@@ -144,6 +145,12 @@ var c03TagSnippets = map[string]string{
 }
 
 var c03BodyRoutes = []string{"top", "if-body", "else-body", "for-body", "with-body", "macro-body", "block-body", "spaceless-body", "autoescape-body", "filtertag-body", "ifchanged-body", "ifequal-body", "for-empty-body"}
+
+// operands a filter use may be applied to; the last ones are not valid pongo2 syntax on
+// the pinned tree (both the set and its ban-free twin then fail alike) - they exist so
+// that a grammar extension which forgets the ban check is still exercised
+var c03Operands = []string{"s1", "s1", `"lit"`, "42", "st.Name", "true", "(s1)", `("a" + s1)`, "-n1", "s1 ", "[s1, s2]", "yv(s1)", "mp.k1", "lst.0"}
+
 var c03ArgRoutes = []string{"arg-if", "arg-elif", "arg-for", "arg-with", "arg-with-old", "arg-set", "arg-firstof", "arg-widthratio", "arg-cycle", "arg-ifchanged", "arg-ifequal",
 	"arg-include-with", "arg-lazy-name", "subscript", "call-arg", "array", "after-param", "filtertag-chain", "filtertag-chain2", "macro-default", "binary-operand", "negation"}
 var c03FileRoutes = []string{"included", "included-if-exists", "extended-base", "extended-child-block", "imported-macro", "ssi-parsed", "lazy", "lazy-nested", "included-nested"}
@@ -226,7 +233,11 @@ func c03Build(op *c03Op, dir string, files map[string]string) {
 		if len(forms) > 0 {
 			form = forms[0]
 		}
-		expr = "s1|" + u.Target + form
+		operand := u.Operand
+		if operand == "" {
+			operand = "s1"
+		}
+		expr = operand + "|" + u.Target + form
 		snippet = "{{ " + expr + " }}"
 	}
 	argRoute := false
@@ -266,6 +277,14 @@ func c03Build(op *c03Op, dir string, files map[string]string) {
 		mainFilts[f] = true
 	}
 	main := ""
+	if strings.HasPrefix(expr, "s1|") == false {
+		// routes that rewrite the operand only know the default one
+		switch u.Route {
+		case "arg-widthratio", "arg-lazy-name", "subscript", "after-param", "binary-operand", "filtertag-chain", "filtertag-chain2":
+			expr = "s1" + expr[strings.Index(expr, "|"+u.Target):]
+			snippet = "{{ " + expr + " }}"
+		}
+	}
 	switch u.Route {
 	case "arg-if":
 		main = "{% if " + expr + " %}y{% endif %}"
@@ -532,10 +551,13 @@ func c03Gen(tp *Tapes) *c03Spec {
 					u.Wraps = append(u.Wraps, wr)
 				}
 			}
+			if !u.IsTag && g.Draw(2) == 1 {
+				u.Operand = c03Operands[g.Draw(len(c03Operands))]
+			}
 			op.Use = u
 			// identical uses share their files (also across sets): "u<hash>/..."
 			uh := newHasher()
-			uh.str(fmt.Sprintf("%v|%s|%s|%v|%v", u.IsTag, u.Target, u.Route, u.Wraps, u.Control))
+			uh.str(fmt.Sprintf("%v|%s|%s|%v|%v|%s", u.IsTag, u.Target, u.Route, u.Wraps, u.Control, u.Operand))
 			op.Dir = fmt.Sprintf("u%x", uint64(uh)&0xffffff)
 			c03Build(&op, op.Dir, sp.Files)
 			if (op.Via == "FromFile" || op.Via == "FromCache" || op.Via == "RenderTemplateFile") && f.Draw(5) == 4 {
@@ -742,6 +764,7 @@ func (c03Checker) Run(tp *Tapes, opt RunOpt) *Outcome {
 			isTag := op.Kind == "bantag"
 			res := sys.do(i, op, true)
 			twin.do(i, op, false)
+			out.dig("ban", res.BanErr)
 			trace = append(trace, map[string]any{"op": i, "kind": op.Kind, "set": op.Set, "target": op.Target, "result": res.BanErr, "frozen_before": m.frozen})
 			bset, reg := m.filts, registeredFilters
 			if isTag {
@@ -818,6 +841,7 @@ func (c03Checker) Run(tp *Tapes, opt RunOpt) *Outcome {
 					}
 				}
 			}
+			out.dig(fmt.Sprintf("%v|%s|%s|%s|%s|%v", res.Created, res.CreateErr, res.ExecErr, res.Out, res.Panic, res.Gets))
 			trace = append(trace, map[string]any{"op": i, "kind": op.Kind, "set": op.Set, "via": op.Via, "use": src.Use, "main": src.Main, "fault": op.Fault,
 				"banned_in_main": bannedMain, "banned_in_lazy": bannedLazy, "result": res, "twin": tres})
 			routeKey := src.Use.Route
